@@ -90,6 +90,8 @@ def lift(x) -> z3.ExprRef:
 
 def _to_real(t):
     if z3.is_int(t):
+        if z3.is_int_value(t):
+            return z3.RealVal(t.as_long())
         return z3.ToReal(t)
     return t
 
@@ -395,6 +397,16 @@ def sym_abs(x):
     if not isinstance(x, Sym):
         return abs(x)
     t = x.t
+    ctx = _CTX
+    if ctx is not None and ctx.mode == "sym" and ctx.scratch.get("abs_by_sign", True):
+        # when the path condition fixes the sign no case split is needed
+        try:
+            if ctx._check(t < 0, timeout=2000) == "unsat":
+                return x
+            if ctx._check(t > 0, timeout=2000) == "unsat":
+                return _mk(-t)
+        except _Deadline:
+            raise
     return _mk(z3.If(t >= 0, t, -t))
 
 
@@ -673,6 +685,50 @@ class Ctx:
                 continue
             d = p - q
             parts.append(z3.And(d <= _realval(tol), -d <= _realval(tol)))
+        return SymBool(z3.And(*parts)) if parts else True
+
+    def approx(self, a, b, rel=1e-7, atol=1e-12):
+        """Equality up to float noise in constants: canonical polynomials agree coefficient-wise within rel.
+
+        (Unit factors computed in a different order, or CODATA releases that differ by < 1e-9, must not
+        count as a difference; a coefficient that differs by more than ``rel`` leaves the exact equality to the
+        solver, whose counterexample is then replayed numerically.)
+        """
+        if self.mode == "conc":
+            fa, fb = np.asarray(a, dtype=float), np.asarray(b, dtype=float)
+            if fa.shape != fb.shape:
+                return False
+            return bool(np.all(np.abs(fa - fb) <= atol + rel * np.maximum(np.abs(fa), np.abs(fb))))
+        from .polynorm import TooBig
+        fa, fb = _flat(a), _flat(b)
+        if len(fa) != len(fb):
+            return False
+        parts = []
+        nz = self.normalizer()
+        for x, y in zip(fa, fb):
+            if x is None or y is None:
+                if x is not y:
+                    return False
+                continue
+            if not isinstance(x, Sym) and not isinstance(y, Sym):
+                fx, fy = float(x), float(y)
+                if abs(fx - fy) > atol + rel * max(abs(fx), abs(fy)):
+                    return False
+                continue
+            p, q = _coerce(lift(x), lift(y))
+            try:
+                pa, pb = nz.canon(p), nz.canon(q)
+                ok = True
+                for m in set(pa) | set(pb):
+                    ca, cb = pa.get(m, 0), pb.get(m, 0)
+                    if abs(ca - cb) > rel * max(abs(ca), abs(cb)) + (atol if m == () else 0):
+                        ok = False
+                        break
+                if ok:
+                    continue
+            except (TooBig, RecursionError):
+                pass
+            parts.append(p == q)
         return SymBool(z3.And(*parts)) if parts else True
 
     def declare_reciprocal(self, x, name=None):
